@@ -31,6 +31,17 @@ def run(ctx: Context) -> None:
     _share8(ctx, _c09, {'R09.10'}, 'R08.9')
     from .common import adopt_foundations as _adopt
     _adopt(ctx, 'R08.8', ['masks', 'topology'], floor=60)
+    ctx.rule('R08.11', "the crop window is refused only for a mask without a single selected cell", floor=1)
+    with ctx.section('R08.11'):
+        from . import infra as _infra811
+        _infra811.refuses_only_when(ctx, 'R08.11', 'emsarray.masking.calculate_grid_mask_bounds', 'is completely empty',
+                                    [('mask_data_array.any().item()', False), ('mask_data_array.any()', False), ('mask_data_array.values.any()', False), ('bool(mask_data_array.any())', False)],
+                                    "an empty mask - and only an empty mask - is refused before its window is searched")
+    ctx.rule('R08.10', "the grid conventions apply a clip mask through mask_grid_dataset: the mask and the work directory are passed on as given", floor=4)
+    with ctx.section('R08.10'):
+        from . import infra as _infra10
+        for _q in ('emsarray.conventions.grid.CFGrid.apply_clip_mask', 'emsarray.conventions.arakawa_c.ArakawaC.apply_clip_mask'):
+            _infra10.passes_parameters_on(ctx, 'R08.10', _q, "apply_clip_mask stands for mask_grid_dataset")
     ctx.assume("xarray where/isel/open_mfdataset; netCDF round trip of the per-variable files (value equality after the round trip is NOT decided)")
 
     mg = ctx.func(f"{MASKING}.mask_grid_dataset")
